@@ -9,6 +9,10 @@
 //! choosing the validation mode.  Ways that produced the same status, error and bytes are
 //! reported as one group together with the strict projection of the bytes.
 //!
+//! A behaviour may carry `"fault": "zero"|"one"|"mid"|"lastline"|"last"|"interrupted"` (used with `--reuse 1`):
+//! the long-lived formatter first formats the entry into a failing writer, then into a healthy one (see
+//! `run_with_fault`); the healthy result is what is reported.
+//!
 //! With `--reuse 1` one formatter instance per (configuration, way, variant) is kept and reused
 //! for all behaviours that share it (default: a fresh formatter per behaviour and way).
 
@@ -43,6 +47,88 @@ fn mask_now(bytes: &[u8]) -> Vec<u8> {
         }
     }
     out
+}
+
+/// accepts `left` bytes (possibly ending in the middle of a slice), then fails
+struct FailAfter {
+    left: usize,
+}
+impl Write for FailAfter {
+    fn write(&mut self, buf: &[u8]) -> std::io::Result<usize> {
+        if self.left == 0 && !buf.is_empty() {
+            return Err(std::io::Error::other("scripted writer failure"));
+        }
+        let n = buf.len().min(self.left);
+        self.left -= n;
+        Ok(n)
+    }
+    fn flush(&mut self) -> std::io::Result<()> {
+        Ok(())
+    }
+}
+
+/// the first call is `Interrupted`, afterwards everything is accepted
+struct InterruptOnce {
+    hit: bool,
+    buf: Vec<u8>,
+}
+impl Write for InterruptOnce {
+    fn write(&mut self, buf: &[u8]) -> std::io::Result<usize> {
+        if !self.hit {
+            self.hit = true;
+            return Err(std::io::ErrorKind::Interrupted.into());
+        }
+        self.buf.extend_from_slice(buf);
+        Ok(buf.len())
+    }
+    fn flush(&mut self) -> std::io::Result<()> {
+        Ok(())
+    }
+}
+
+fn status_of(r: Result<Result<(), metrique_writer::stream::IoStreamError>, String>) -> (&'static str, Option<String>) {
+    use metrique_writer::stream::IoStreamError as E;
+    match r {
+        Ok(Ok(())) => ("ok", None),
+        Ok(Err(E::Validation(e))) => ("validation", Some(e.to_string())),
+        Ok(Err(E::Io(e))) => ("io", Some(e.to_string())),
+        Err(p) => ("panic", Some(p)),
+    }
+}
+
+/// Fault injection between the entries of a long-lived formatter (`"fault": kind` on a behaviour):
+/// the entry is first formatted into a writer that fails after N accepted bytes (N = 0, 1, the middle,
+/// inside the last line, the last byte - relative to a probe run), which must return `Err(Io)`; then it is
+/// formatted again into a healthy writer and THAT result is reported and judged like any other.  Kind
+/// "interrupted": the reported result is the one produced through a writer whose first call is `Interrupted`.
+fn run_with_fault(f: &mut Formatter, script: &Script, kind: &str, stats: &mut (u64, u64, u64)) -> RunOut {
+    if kind == "interrupted" {
+        let mut w = InterruptOnce { hit: false, buf: Vec::new() };
+        let (status, err) = status_of(util::catch(|| f.format(script, &mut w)));
+        return RunOut { status, err, bytes: w.buf };
+    }
+    let probe = run_once(f, script);
+    let len = probe.bytes.len();
+    if probe.status == "ok" && len > 0 {
+        let body = &probe.bytes[..len - 1];
+        let last_line_start = body.iter().rposition(|c| *c == b'\n').map(|i| i + 1).unwrap_or(0);
+        let n = match kind {
+            "zero" => 0,
+            "one" => 1.min(len - 1),
+            "mid" => len / 2,
+            "lastline" => last_line_start + (len - last_line_start) / 2,
+            _ => len - 1,
+        };
+        let mut w = FailAfter { left: n };
+        let (status, _) = status_of(util::catch(|| f.format(script, &mut w)));
+        stats.0 += 1;
+        if status == "io" {
+            stats.1 += 1;
+        } else {
+            stats.2 += 1;
+        }
+    }
+    run_once(f, script)
 }
 
 fn main() {
@@ -86,6 +172,8 @@ fn replay(args: &HashMap<String, String>) {
         };
         let same = |a: &RunOut, b: &RunOut| a.status == b.status && a.err == b.err && norm(a) == norm(b);
         let mut groups: Vec<(RunOut, Vec<&'static str>)> = Vec::new();
+        // (failing-writer calls, of which returned Err(Io), of which did not)
+        let mut fault_stats = (0u64, 0u64, 0u64);
         for &way in &ways {
             let r = if reuse {
                 let key = format!("{}|{}|{}", b["cfg"], way.name(), conc.v);
@@ -97,7 +185,10 @@ fn replay(args: &HashMap<String, String>) {
                         None => continue,
                     }
                 }
-                run_once(cache.get_mut(&key).unwrap(), &script)
+                match b["fault"].as_str() {
+                    Some(kind) => run_with_fault(cache.get_mut(&key).unwrap(), &script, kind, &mut fault_stats),
+                    None => run_once(cache.get_mut(&key).unwrap(), &script),
+                }
             } else {
                 match Formatter::build(&cfg, way, &conc) {
                     Some(mut f) => run_once(&mut f, &script),
@@ -144,6 +235,7 @@ fn replay(args: &HashMap<String, String>) {
                 "calls": desc,
             },
             "runs": runs,
+            "fault": {"kind": b["fault"], "calls": fault_stats.0, "io_err": fault_stats.1, "not_io_err": fault_stats.2},
         });
         writeln!(out, "{line}").unwrap();
     }
